@@ -230,6 +230,11 @@ class Effects:
                     if any(self._is_value(a, vv) for a in list(n.args) + [k.value for k in n.keywords]):
                         out.append((n, 'OverflowError', 'timedelta() with a huge or infinite number'))
                         out.append((n, 'ValueError', 'timedelta() with nan'))
+                elif cn in ('operator.add', 'operator.sub', 'operator.mul', 'operator.truediv', 'operator.floordiv', 'operator.mod', 'operator.pow') and len(n.args) == 2 \
+                        and (self._is_value(n.args[0], vv) or self._is_value(n.args[1], vv)):
+                    out.append((n, 'OverflowError', f'{cn} of an arbitrary-precision int and a float / result too large'))
+                    if cn in ('operator.truediv', 'operator.floordiv', 'operator.mod', 'operator.pow'):
+                        out.append((n, 'ZeroDivisionError', f'{cn}: zero divisor / 0 ** negative'))
                 elif cn == 'int' and len(n.args) == 1 and self._has_value(n.args[0], vv):
                     out.append((n, 'OverflowError', 'int(inf)'))
                     out.append((n, 'ValueError', 'int(nan)'))
